@@ -137,6 +137,19 @@ class Run(object):
         owner = []
         keys = list(keys)
         lemmas = list(lemmas)
+        # everything the ledger pins for this property was found by this closure on the unchanged tree; it is generated again from the
+        # ledger, so that a function that has left the fragment (and therefore names no callees / lemmas any more) does not take the
+        # obligations of its callees and lemmas down with it
+        try:
+            for oid in json.load(open(os.path.join(ROOT, 'contracts', 'LEDGER.json'))).get(self.pid, []):
+                parts = oid.split('::')
+                if parts[0] == 'lemma':
+                    if parts[1] in lib.lemmas and parts[1] not in lemmas:
+                        lemmas.append(parts[1])
+                elif len(parts) >= 2 and '::'.join(parts[:2]) in lib.contracts and '::'.join(parts[:2]) not in keys:
+                    keys.append('::'.join(parts[:2]))
+        except (OSError, ValueError):
+            pass
         seen_keys = set()
         qi = 0
         while qi < len(keys):
@@ -434,10 +447,10 @@ class Run(object):
             json.dump(ev, f, indent=1, default=str)
         print('%s tier=%s obligations=%d discharged=%d bounded_cases=%d violations=%d known=%d wall=%.1fs' % (
             self.pid, self.tier, n_obl, n_dis, cases, len(self.violations), len(printed), time.time() - self.t0))
+        if self.violations:
+            return 1          # a violation stands on its own evidence (failing input / named obligation), whatever else went wrong
         if self.checker_errors:
             return 3
-        if self.violations:
-            return 1
         if n_obl == 0 and cases == 0:
             print('CHECKER-ERROR: zero obligations and zero cases')
             return 3
